@@ -10,7 +10,7 @@ Open Scope N_scope.
 Open Scope list_scope.
 
 (* ---------- ownership ---------- *)
-Definition lisN (p : pcs) : bool := match p with WIdle | WListen | WDone | WGone => true | _ => false end.
+Definition lisN (p : pcs) : bool := match p with WIdle | WNew | WListen | WDone | WGone => true | _ => false end.
 Definition lisS (p : pcs) : bool := match p with WPoll | WParked => true | _ => false end.
 Definition pc_ok (f : fut) : Prop := (lisN (fpc f) = true -> flis f = None) /\ (lisS (fpc f) = true -> flis f <> None).
 
@@ -61,11 +61,11 @@ Proof.
   - (* AEnter *)
     destruct (getf s i) as [f|] eqn:L; [|exact O]. pose proof (ow_pc _ _ _ _ _ _ _ _ O i f L) as Pf.
     destruct (fpc f) eqn:Pc; try exact O. destruct (g_act s || (up && (g_rd s =? 0))); [exact O|].
-    unfold Own; cbn [g_ev g_nid g_futs]. apply (Own_move _ _ _ i f _ O L); [reflexivity | reflexivity | pcok Pf Pc].
+    unfold Own; cbn [g_ev g_nid g_futs]. destruct up; (apply (Own_move _ _ _ i f _ O L); [reflexivity | reflexivity | pcok Pf Pc]).
   - (* APoll *)
     destruct (getf s i) as [f|] eqn:L; [|exact O]. pose proof (ow_pc _ _ _ _ _ _ _ _ O i f L) as Pf.
-    destruct (fpc f) eqn:Pc; try exact O. unfold Own, with_fut; cbn [g_ev g_nid g_futs].
-    apply (Own_move _ _ _ i f _ O L); [reflexivity | reflexivity | pcok Pf Pc].
+    destruct (fpc f) eqn:Pc; try exact O; unfold Own, with_fut; cbn [g_ev g_nid g_futs];
+    (apply (Own_move _ _ _ i f _ O L); [reflexivity | reflexivity | pcok Pf Pc]).
   - (* AStep *)
     destruct (getf s i) as [f|] eqn:L; [|exact O]. pose proof (ow_pc _ _ _ _ _ _ _ _ O i f L) as Pf. pose proof L as L0. unfold getf in L0.
     destruct (fpc f) eqn:Pc; try exact O.
@@ -87,6 +87,7 @@ Proof.
     + apply (Own_move _ _ _ i f _ O L); [cbn; destruct Pf as (Pf1 & _); rewrite Pc in Pf1; symmetry; apply Pf1; reflexivity | reflexivity |].
       unfold pc_ok. cbn. split; intros; [reflexivity | discriminate].
     + apply (Own_move _ _ _ i f _ O L); [reflexivity | reflexivity | pcok Pf Pc].
+    + apply (Own_move _ _ _ i f _ O L); [reflexivity | reflexivity | pcok Pf Pc].
   - (* AUnlock *)
     destruct (getf s i) as [f|] eqn:L; [|exact O]. pose proof (ow_pc _ _ _ _ _ _ _ _ O i f L) as Pf.
     destruct (fpc f) eqn:Pc; try exact O. unfold Own; cbn [g_ev g_nid g_futs].
@@ -100,10 +101,10 @@ Qed.
 Fixpoint cntb (P : fut -> bool) (l : list fut) : N :=
   match l with [] => 0 | f :: r => (if P f then 1 else 0) + cntb P r end.
 Definition b2N (b : bool) : N := if b then 1 else 0.
-Definition actpc (f : fut) : bool := match fpc f with WLoad | WListen | WPoll | WDropL | WParked | WDone => true | _ => false end.
+Definition actpc (f : fut) : bool := match fpc f with WNew | WLoad | WListen | WPoll | WDropL | WParked | WDone => true | _ => false end.
 Definition Ainv (s : gst) : Prop := cntb actpc (g_futs s) = b2N (g_act s).
 
-Lemma actpc_eq f : actpc f = match fpc f with WLoad | WListen | WPoll | WDropL | WParked | WDone => true | _ => false end.
+Lemma actpc_eq f : actpc f = match fpc f with WNew | WLoad | WListen | WPoll | WDropL | WParked | WDone => true | _ => false end.
 Proof. reflexivity. Qed.
 Lemma cntb_set P i f x l : nth_error l i = Some f -> cntb P (set_nth i x l) + b2N (P f) = cntb P l + b2N (P x).
 Proof.
@@ -145,9 +146,9 @@ Proof.
   intro A. destruct a as [i up|i|i|i|i| | |]; cbn [step].
   - destruct (getf s i) as [f|] eqn:L; [|exact A]. pose proof L as L0. unfold getf in L0. destruct (fpc f) eqn:Pc; try exact A.
     destruct (g_act s) eqn:Act; cbn [orb]; [exact A|]. destruct (up && (g_rd s =? 0)); [exact A|].
-    ainv L0 Pc. rewrite Act in A. cbn in *. lia.
-  - destruct (getf s i) as [f|] eqn:L; [|exact A]. pose proof L as L0. unfold getf in L0. destruct (fpc f) eqn:Pc; try exact A.
-    ainv L0 Pc. lia.
+    destruct up; ainv L0 Pc; rewrite Act in A; cbn in *; lia.
+  - destruct (getf s i) as [f|] eqn:L; [|exact A]. pose proof L as L0. unfold getf in L0. destruct (fpc f) eqn:Pc; try exact A;
+    ainv L0 Pc; lia.
   - destruct (getf s i) as [f|] eqn:L; [|exact A]. pose proof L as L0. unfold getf in L0. destruct (fpc f) eqn:Pc; try exact A.
     + destruct (g_rd s =? 0); [|destruct (flis f)]; ainv L0 Pc; lia.
     + ainv L0 Pc. lia.
@@ -162,6 +163,8 @@ Proof.
       * ainv L0 Pc. lia.
   - destruct (getf s i) as [f|] eqn:L; [|exact A]. pose proof L as L0. unfold getf in L0. destruct (fpc f) eqn:Pc; try exact A.
     + ainv L0 Pc. lia.
+    + pose proof (cntb_ge actpc i f _ L0 ltac:(rewrite actpc_eq, Pc; reflexivity)) as G.
+      ainv L0 Pc. destruct (g_act s); cbn in *; lia.
     + pose proof (cntb_ge actpc i f _ L0 ltac:(rewrite actpc_eq, Pc; reflexivity)) as G.
       ainv L0 Pc. destruct (g_act s); cbn in *; lia.
   - destruct (getf s i) as [f|] eqn:L; [|exact A]. pose proof L as L0. unfold getf in L0. destruct (fpc f) eqn:Pc; try exact A.
@@ -284,17 +287,33 @@ Proof.
     pose proof (cntb_two actpc i j f g _ ltac:(congruence) L0 Lj Af Ag) as G. unfold Ainv in A. destruct (g_act s); cbn in A; lia.
 Qed.
 
+(* no future is past the mutex and the acting one does not start to wait: nobody waits *)
+Lemma T_none s s' i f x ws : Ainv s -> g_act s = false -> getf s i = Some f -> waits x = false ->
+  g_futs s' = wake_from 0 ws (set_nth i x (g_futs s)) -> Tinv s'.
+Proof.
+  intros A Act L Wx EF _ Nd. exfalso. pose proof L as L0. unfold getf in L0.
+  unfold needy in Nd. rewrite EF in Nd. rewrite (existsb_wake fut fwake) in Nd by reflexivity.
+  destruct (existsb_set_inv _ _ _ _ _ L0 Nd) as [Hx|(j & g & N & Lj & Pg)].
+  - unfold needs in Hx. rewrite Wx in Hx. destruct (flis x); discriminate.
+  - assert (Ag : actpc g = true).
+    { unfold needs in Pg. destruct (flis g); [|discriminate]. apply Bool.andb_true_iff in Pg. destruct Pg as (Wg & _).
+      unfold waits in Wg. rewrite actpc_eq. destruct (fpc g); try discriminate; reflexivity. }
+    pose proof (cntb_ge actpc j g _ Lj Ag) as G. unfold Ainv in A. rewrite Act in A. cbn in A. lia.
+Qed.
+
 Lemma Tinv_step s a : Own s -> Ainv s -> Tinv s -> Tinv (step true s a).
 Proof.
   intros O A T. pose proof (Own_step s a O) as O'. destruct a as [i up|i|i|i|i| | |]; cbn [step] in *.
   - (* AEnter *)
     destruct (getf s i) as [f|] eqn:L; [|exact T]. pose proof L as L0. unfold getf in L0.
-    destruct (fpc f) eqn:Pc; try exact T. destruct (g_act s || (up && (g_rd s =? 0))); [exact T|].
-    apply (T_tok _ i (mkF WLoad (flis f) false)); [cbn [g_futs]; apply (nth_set_same _ _ _ _ L0) | reflexivity].
+    destruct (fpc f) eqn:Pc; try exact T. destruct (g_act s) eqn:Act; cbn [orb]; [exact T|]. destruct (up && (g_rd s =? 0)); [exact T|].
+    destruct up.
+    + apply (T_none s _ i f (mkF WNew (flis f) false) [] A Act L); [reflexivity|]. cbn [g_futs]. rewrite (wake_nil fut fwake). reflexivity.
+    + apply (T_tok _ i (mkF WLoad (flis f) false)); [cbn [g_futs]; apply (nth_set_same _ _ _ _ L0) | reflexivity].
   - (* APoll *)
     destruct (getf s i) as [f|] eqn:L; [|exact T]. pose proof L as L0. unfold getf in L0.
-    destruct (fpc f) eqn:Pc; try exact T.
-    apply (T_tok _ i (mkF WLoad (flis f) false)); [cbn [g_futs with_fut]; apply (nth_set_same _ _ _ _ L0) | reflexivity].
+    destruct (fpc f) eqn:Pc; try exact T;
+    (apply (T_tok _ i (mkF WLoad (flis f) false)); [cbn [g_futs with_fut]; apply (nth_set_same _ _ _ _ L0) | reflexivity]).
   - (* AStep *)
     destruct (getf s i) as [f|] eqn:L; [|exact T]. pose proof (ow_pc _ _ _ _ _ _ _ _ O i f L) as (P1 & P2).
     pose proof L as L0. unfold getf in L0.
@@ -331,6 +350,8 @@ Proof.
     destruct (fpc f) eqn:Pc; try exact T; cbn [lisN lisS] in *.
     + eapply (T_same s _ i f _ O T L O'); try reflexivity; cbn [g_rd g_pend with_fut]; auto; try lia; try tk Pc.
       unfold needs. cbn. discriminate.
+    + eapply (T_same s _ i f _ O T L O'); try reflexivity; cbn [g_rd g_pend]; auto; try lia; try tk Pc.
+      unfold needs, waits, setpc. cbn [flis fpc]. destruct (flis f); discriminate.
     + eapply (T_same s _ i f _ O T L O'); try reflexivity; cbn [g_rd g_pend]; auto; try lia; try tk Pc.
       unfold needs, waits, setpc. cbn [flis fpc]. destruct (flis f); discriminate.
   - (* AUnlock *)
@@ -406,6 +427,6 @@ Example rw_write_sched_f2c_repaired :
 Proof. vm_compute. split; reflexivity. Qed.
 (* an upgrade whose fetch_sub removes the last reader completes on its own: nobody owes it a notification *)
 Example rw_write_sched_upgrade_last :
-  let s := run true 1 1 [AEnter 0 true; AStep 0; AStep 0] in
+  let s := run true 1 1 [AEnter 0 true; APoll 0; AStep 0; AStep 0] in
   g_rd s = 0 /\ option_map fpc (nth_error (g_futs s) 0) = Some WDone.
 Proof. vm_compute. split; reflexivity. Qed.
